@@ -1073,6 +1073,39 @@ func run(t *testing.T, scAny any, c *kernel.Ctx) error {
 
 	// 2. Error injection: re-run with one failing syscall each.
 	plan := injectionPlan(sc, ck.inj)
+	// Bound the cost of a case: an injected run costs about as much as the
+	// baseline's main thread made syscalls (plus copying the initial files).
+	mainCalls := 0
+	for _, ev := range r.trace.Events {
+		if ev.Tid == r.trace.MainTid {
+			mainCalls++
+		}
+	}
+	initBytes := 0
+	for _, b := range init {
+		initBytes += len(b)
+	}
+	for _, v := range versions {
+		initBytes += len(v.data)
+	}
+	budget := 600_000
+	if c.Tier == "thorough" {
+		budget = 1_500_000
+	}
+	if maxRuns := budget / (mainCalls + initBytes/400 + 200); len(plan) > maxRuns {
+		if maxRuns < 2 {
+			maxRuns = 2
+		}
+		if len(plan) > maxRuns {
+			c.Eventf("injection plan cut from %d to %d runs", len(plan), maxRuns)
+			c.Probe("injection_plan_cut")
+			cut := make([]plannedInject, 0, maxRuns)
+			for i := 0; i < maxRuns; i++ {
+				cut = append(cut, plan[i*len(plan)/maxRuns])
+			}
+			plan = cut
+		}
+	}
 	for n, p := range plan {
 		inj := &injectSpec{call: p.call, ord: p.ord, errno: p.errno}
 		ri, rerr := runHelper(base, n+1, sc, init, inj)
